@@ -81,9 +81,4 @@ def countRetryHdr (s : Key) (l : List PEvent) : Nat :=
 def countFirstIn (s : Key) (l : List PEvent) : Nat :=
   (l.filter fun e => decide (e.seq = s) && e.first && e.inRange).length
 
-/-- Class of finding F17a: configured attempts below 1, and the history is fine for attempts = 1
-    (policy mode answers one retry although zero or fewer were configured). -/
-def findingF17a (A : Int) (h : List PEvent) : Bool :=
-  decide (A < 1) && pholds 1 h
-
 end LunarVerif.C17
